@@ -65,3 +65,22 @@ package helpers
 //@   loop 0 invariant len(a) == len(b) && (-1 <= rangeindex && rangeindex < len(a) || (len(a) == 0 && rangeindex == -1))
 //@   loop 0 invariant forall k int :: 0 <= k && k <= rangeindex ==> a[k] == b[k]
 
+
+// ----------------------------------------------------------------------------------------------
+// C02 / C16: percent-escaped data URLs. The escape decision indexes a 16-entry hex table with c>>4 and
+// c&15 of a *rune*; this is in range only because every escaped rune is ASCII (the trailing region that is
+// escaped wholesale contains only bytes <= 0x20). Slices of the text stay in range and the scan terminates.
+//@ func EncodeStringAsPercentEscapedDataURL
+//@   arith int
+//@   safety
+//@   prop C16
+//@   loop 0 invariant 0 <= trailingStart && trailingStart <= n && n == len(text)
+//@   loop 0 invariant forall k int :: trailingStart <= k && k < n ==> text[k] <= 32
+//@   loop 0 decreases trailingStart
+//@   loop 1 invariant 0 <= i && i <= n && n == len(text) && 0 <= runStart && runStart <= i && 0 <= trailingStart && trailingStart <= n
+//@   loop 1 invariant forall k int :: trailingStart <= k && k < n ==> text[k] <= 32
+//@   loop 1 decreases n - i
+//@ func isHex
+//@   arith int
+//@   prop C16
+//@   ensures spec: result <==> ((c >= '0' && c <= '9') || (c >= 'a' && c <= 'f') || (c >= 'A' && c <= 'F'))
